@@ -345,6 +345,24 @@ func VerifyUnit(prog *Program, cs *ContractSet, uc *UnitContract) *UnitResult {
 		x.obligations = append(x.obligations, &Obligation{Name: fmt.Sprintf("%s/fp-exhaustive:%s", uc.ID(), fc.Name), Unit: uc.ID(), Kind: "fp-exhaustive", Tags: fc.Tags,
 			PC: True, Goal: goal, NAss: 0, Text: fmt.Sprintf("for every %s in %d..%d, evaluated with float64 arithmetic on the real statements: %s", fc.Var, fc.Lo, fc.Hi, exprText(fc.Check)), exec: x, Concrete: &f})
 	}
+	if tags, ok := uc.Safety["noglobals"]; ok && on(tags) {
+		// syntactic, transitive: the function leaves nothing behind in package-level variables
+		touched := prog.GlobalTouch(fu)
+		detail := ""
+		for _, k := range sortedKeys(touched) {
+			if detail != "" {
+				detail += "; "
+			}
+			detail += k + " " + touched[k]
+		}
+		goal := True
+		if detail != "" {
+			goal = False
+		}
+		d := detail
+		x.obligations = append(x.obligations, &Obligation{Name: uc.ID() + "/no-shared-state", Unit: uc.ID(), Kind: "no-shared-state", Tags: tags,
+			PC: True, Goal: goal, NAss: 0, Text: "no package-level variable of the repository is mutated by this function or anything it (statically, transitively) calls" + map[bool]string{true: ": " + detail, false: ""}[detail != ""], exec: x, Concrete: &d})
+	}
 	for _, as := range uc.AtStmts {
 		if as.Used == 0 {
 			res.Errors = append(res.Errors, fmt.Sprintf("contract cannot bind: %s: no statement starts with %q", uc.ID(), as.Anchor))
